@@ -1,231 +1,97 @@
 import SFV.Lemmas.JsDepsTop
-/-! C31: on the handled fragment the listener never raises (the analysis is defined). -/
+/-! C31: the listener raises no exception — on *every* syntax tree (after fix 254d061 of the code). -/
 namespace SFV.JsDeps
-open Frag
 
 theorem bind_ok_intro {α β ε : Type} {x : Except ε α} {f : α → Except ε β} {a : α} {b : β}
     (h1 : x = .ok a) (h2 : f a = .ok b) : (x >>= f) = .ok b := by
   subst h1; exact h2
 
-/-- value-position expressions are listened to without an exception (and without a change of names) -/
-theorem pure_listen_ok (f : Names → List String → Js → Bool)
-    (hf : ∀ nb ps body, f nb ps body = true → ∃ ks, listen nb body = .ok (nb, ks)) :
-    ∀ (e : Js) (n : Names) (loc : List String) (top : Bool),
-      pureOk n loc top f e = true → ∃ ks, listen n e = .ok (n, ks) := by
-  intro e
-  induction e with
-  | num m => intro n loc top _; exact ⟨[], by simp [listen]⟩
-  | str m => intro n loc top _; exact ⟨[], by simp [listen]⟩
-  | ident m => intro n loc top _; exact ⟨[], by simp [listen]⟩
-  | skip => intro n loc top _; exact ⟨[], by simp [listen]⟩
-  | dot e k ih =>
-    intro n loc top hp
-    simp only [pureOk] at hp
-    have h1 : ∃ k1, listen n e = .ok (n, k1) := by
-      cases hn : nameOf e with
-      | some x => have := nameOf_some hn; subst this; exact ⟨[], by simp [listen]⟩
-      | none => rw [hn] at hp; exact ih n loc top hp
-    obtain ⟨k1, h1⟩ := h1
-    exact ⟨_, by simp only [listen]; exact bind_ok_intro h1 rfl⟩
-  | idx e i ih1 ih2 =>
-    intro n loc top hp
-    simp only [pureOk] at hp
-    have key : (∃ k0, idxKeys n e i = .ok k0) ∧ (∃ k1, listen n e = .ok (n, k1)) ∧ (∃ k2, listen n i = .ok (n, k2)) := by
-      cases hn : nameOf e with
-      | some x =>
-        have := nameOf_some hn; subst this
-        simp only [nameOf] at hp
-        refine ⟨?_, ⟨[], by simp [listen]⟩, ?_⟩
-        · simp only [idxKeys, nameOf]
-          by_cases hg : n.isGlobal x = true
-          · simp only [hg, if_true]
-            by_cases hc : loc.contains x = true
-            · simp only [hc, if_true, hg, Bool.and_eq_true] at hp
-              cases i <;> simp at hp
-              exact ⟨_, rfl⟩
-            · have hc' : loc.contains x = false := by simpa using hc
-              simp only [hc', Bool.false_eq_true, if_false, hg, if_true] at hp
-              cases i <;> simp at hp
-              exact ⟨_, rfl⟩
-          · have hg' : n.isGlobal x = false := by simpa using hg
-            simp only [hg', Bool.false_eq_true, if_false]; exact ⟨_, rfl⟩
-        · by_cases hc : loc.contains x = true
-          · simp only [hc, if_true, Bool.and_eq_true] at hp; exact ih2 n loc top hp.2
-          · have hc' : loc.contains x = false := by simpa using hc
-            simp only [hc', Bool.false_eq_true, if_false] at hp
-            by_cases hg : n.isGlobal x = true
-            · simp only [hg, if_true] at hp
-              cases i <;> simp at hp
-              exact ⟨[], by simp [listen]⟩
-            · have hg' : n.isGlobal x = false := by simpa using hg
-              simp only [hg', Bool.false_eq_true, if_false, Bool.and_eq_true] at hp
-              exact ih2 n loc top hp.2
-      | none =>
-        rw [hn] at hp; simp only [Bool.and_eq_true] at hp
-        exact ⟨⟨[], by simp [idxKeys, hn]⟩, ih1 n loc top hp.1, ih2 n loc top hp.2⟩
-    obtain ⟨⟨k0, h0⟩, ⟨k1, h1⟩, ⟨k2, h2⟩⟩ := key
-    exact ⟨_, by simp only [listen]; exact bind_ok_intro h0 (bind_ok_intro h1 (bind_ok_intro h2 rfl))⟩
-  | paren e ih => intro n loc top hp; simp only [pureOk] at hp; simp only [listen]; exact ih n loc top hp
-  | bin a b ih1 ih2 =>
-    intro n loc top hp
-    simp only [pureOk, Bool.and_eq_true] at hp
-    obtain ⟨k1, h1⟩ := ih1 n loc top hp.1
-    obtain ⟨k2, h2⟩ := ih2 n loc top hp.2
-    exact ⟨_, by simp only [listen]; exact bind_ok_intro h1 (bind_ok_intro h2 rfl)⟩
-  | seq a b ih1 ih2 =>
-    intro n loc top hp
-    simp only [pureOk, Bool.and_eq_true] at hp
-    obtain ⟨k1, h1⟩ := ih1 n loc top hp.1
-    obtain ⟨k2, h2⟩ := ih2 n loc top hp.2
-    exact ⟨_, by simp only [listen]; exact bind_ok_intro h1 (bind_ok_intro h2 rfl)⟩
-  | call a b ih1 ih2 =>
-    intro n loc top hp
-    simp only [pureOk, Bool.and_eq_true] at hp
-    obtain ⟨k1, h1⟩ := ih1 n loc top hp.1.2
-    obtain ⟨k2, h2⟩ := ih2 n loc top hp.2
-    exact ⟨_, by simp only [listen]; exact bind_ok_intro h1 (bind_ok_intro h2 rfl)⟩
-  | cond c a b ih1 ih2 ih3 =>
-    intro n loc top hp
-    simp only [pureOk, Bool.and_eq_true] at hp
-    obtain ⟨k1, h1⟩ := ih1 n loc top hp.1.1
-    obtain ⟨k2, h2⟩ := ih2 n loc top hp.1.2
-    obtain ⟨k3, h3⟩ := ih3 n loc top hp.2
-    exact ⟨_, by simp only [listen]; exact bind_ok_intro h1 (bind_ok_intro h2 (bind_ok_intro h3 rfl))⟩
-  | fexpr ps body ih =>
-    intro n loc top hp
-    simp only [pureOk, Bool.and_eq_true] at hp
-    simp only [listen]
-    exact hf n ps body hp.2
-  | _ => intro n loc top hp; simp [pureOk] at hp
+theorem del_total (n : Names) (x : String) : ∃ n', n.del x = .ok n' := by
+  unfold Names.del
+  cases n.inner <;> exact ⟨_, rfl⟩
 
-theorem pure_listen_ok_false {n loc e} (hp : pureOk n loc false (fun _ _ _ => false) e = true) :
-    ∃ ks, listen n e = .ok (n, ks) :=
-  pure_listen_ok _ (by intro _ _ _ h; simp at h) e n loc false hp
-
-theorem body_listen_ok : ∀ (s : Js) (nb : Names) (loc : List String),
-    bodyOk nb loc s = true → ∃ ks, listen nb s = .ok (nb, ks) := by
-  intro s
-  induction s with
-  | skip => intro nb loc _; exact ⟨[], by simp [listen]⟩
-  | varDecl x => intro nb loc _; exact ⟨[], by simp [listen]⟩
-  | varInit x e _ => intro nb loc hb; simp only [bodyOk] at hb; simp only [listen]; exact pure_listen_ok_false hb
-  | ret e _ => intro nb loc hb; simp only [bodyOk] at hb; simp only [listen]; exact pure_listen_ok_false hb
-  | assign x e _ =>
-    intro nb loc hb
-    simp only [bodyOk, Bool.and_eq_true] at hb
-    obtain ⟨ks, h1⟩ := pure_listen_ok_false hb.1.2
-    cases h0 : onAssign nb x e with
-    | error err => rw [h0] at hb; simp at hb
-    | ok n0 =>
-      have := onAssign_same hb.2 h0; subst this
-      exact ⟨ks, by simp only [listen]; exact bind_ok_intro h0 h1⟩
-  | ite c t e _ iht ihe =>
-    intro nb loc hb
-    simp only [bodyOk, Bool.and_eq_true] at hb
-    obtain ⟨k1, h1⟩ := pure_listen_ok_false hb.1.1
-    obtain ⟨k2, h2⟩ := iht nb loc hb.1.2
-    obtain ⟨k3, h3⟩ := ihe nb loc hb.2
-    exact ⟨_, by simp only [listen]; exact bind_ok_intro h1 (bind_ok_intro h2 (bind_ok_intro h3 rfl))⟩
-  | seq a b iha ihb =>
-    intro nb loc hb
-    obtain ⟨hba, hbb⟩ := bodyOk_seq hb
-    obtain ⟨k1, h1⟩ := iha nb loc hba
-    obtain ⟨k2, h2⟩ := ihb nb _ hbb
-    exact ⟨_, by simp only [listen]; exact bind_ok_intro h1 (bind_ok_intro h2 rfl)⟩
-  | fdecl f ps b _ => intro nb loc hb; simp [bodyOk] at hb
-  | fexpr ps b _ => intro nb loc hb; simp [bodyOk] at hb
-  | call f a _ _ => intro nb loc hb; simp [bodyOk] at hb
-  | num m => intro nb loc hb; simp only [bodyOk] at hb; exact pure_listen_ok_false hb
-  | str m => intro nb loc hb; simp only [bodyOk] at hb; exact pure_listen_ok_false hb
-  | ident m => intro nb loc hb; simp only [bodyOk] at hb; exact pure_listen_ok_false hb
-  | dot a k _ => intro nb loc hb; simp only [bodyOk] at hb; exact pure_listen_ok_false hb
-  | idx a i _ _ => intro nb loc hb; simp only [bodyOk] at hb; exact pure_listen_ok_false hb
-  | paren a _ => intro nb loc hb; simp only [bodyOk] at hb; exact pure_listen_ok_false hb
-  | bin a c _ _ => intro nb loc hb; simp only [bodyOk] at hb; exact pure_listen_ok_false hb
-  | cond a c d _ _ _ => intro nb loc hb; simp only [bodyOk] at hb; exact pure_listen_ok_false hb
-
-theorem pure_listen_ok_top {n loc top e} (hp : pureOk n loc top bodyOk e = true) :
-    ∃ ks, listen n e = .ok (n, ks) :=
-  pure_listen_ok bodyOk (fun nb ps body h => body_listen_ok body nb ps h) e n loc top hp
-
-theorem onAssign_ok_top {n : Names} (hin : n.inner = []) (x : String) (e : Js) : ∃ n0, onAssign n x e = .ok n0 := by
+theorem onAssign_total (n : Names) (x : String) (e : Js) : ∃ n0, onAssign n x e = .ok n0 := by
   unfold onAssign
-  by_cases hx : n.has x = true
-  · simp only [hx, if_true]
-    cases nameOf e with
+  split
+  · cases nameOf e with
     | none => exact ⟨_, rfl⟩
     | some y =>
       simp only
-      by_cases hy : n.has y = true
-      · simp only [hy, if_true]; exact ⟨_, rfl⟩
-      · have hy' : n.has y = false := by simpa using hy
-        simp only [hy', Bool.false_eq_true, if_false]
-        unfold Names.del
-        rw [hin]
-        simp only
-        have : n.glob.contains x = true := by rw [← has_of_inner_nil hin]; exact hx
-        rw [if_pos this]; exact ⟨_, rfl⟩
-  · have hx' : n.has x = false := by simpa using hx
-    simp only [hx', Bool.false_eq_true, if_false]
-    cases nameOf e with
+      split
+      · exact ⟨_, rfl⟩
+      · exact del_total n x
+  · cases nameOf e with
     | none => exact ⟨_, rfl⟩
     | some y => simp only; split <;> exact ⟨_, rfl⟩
 
-/-- the listener raises no exception on a handled statement list -/
-theorem top_listen_ok : ∀ (s : Js) (cnd : Bool) (n : Names), topOk cnd n s = true → n.inner = [] →
-    ∃ n' ks, listen n s = .ok (n', ks) := by
-  intro s
-  induction s with
-  | skip => intro cnd n _ _; exact ⟨n, [], by simp [listen]⟩
-  | varDecl x => intro cnd n _ _; exact ⟨n, [], by simp [listen]⟩
-  | varInit x e _ =>
-    intro cnd n h _; simp only [topOk, pureTop] at h
-    obtain ⟨ks, h1⟩ := pure_listen_ok_top h; exact ⟨n, ks, by simp only [listen]; exact h1⟩
-  | ret e _ =>
-    intro cnd n h _; simp only [topOk, pureTop] at h
-    obtain ⟨ks, h1⟩ := pure_listen_ok_top h; exact ⟨n, ks, by simp only [listen]; exact h1⟩
-  | assign x e _ =>
-    intro cnd n h hin
-    obtain ⟨n0, h0⟩ := onAssign_ok_top hin x e
-    cases hn : nameOf e with
-    | some y =>
-      have := nameOf_some hn; subst this
-      exact ⟨n0, [], by simp only [listen]; exact bind_ok_intro h0 (by simp [listen])⟩
-    | none =>
-      have := (onAssign_top hin h0).2.2.2.2 hn; subst this
-      obtain ⟨ks, h1⟩ := pure_listen_ok_top (topOk_assign_pure hn h)
-      exact ⟨n0, ks, by simp only [listen]; exact bind_ok_intro h0 h1⟩
-  | ite c t e _ iht ihe =>
-    intro cnd n h hin
-    simp only [topOk, Bool.and_eq_true, pureTop] at h
-    obtain ⟨k1, h1⟩ := pure_listen_ok_top h.1.1
-    obtain ⟨n2, k2, h2⟩ := iht true n h.1.2 hin
-    rw [h2] at h
-    obtain ⟨hi2, _⟩ := top_names t true n n2 k2 h.1.2 hin h2
-    obtain ⟨n3, k3, h3⟩ := ihe true n2 h.2 hi2
-    exact ⟨n3, _, by simp only [listen]; exact bind_ok_intro h1 (bind_ok_intro h2 (bind_ok_intro h3 rfl))⟩
-  | seq a b iha ihb =>
-    intro cnd n h hin
-    simp only [topOk, Bool.and_eq_true] at h
-    obtain ⟨n1, k1, h1⟩ := iha cnd n h.1 hin
-    rw [h1] at h
-    obtain ⟨hi1, _⟩ := top_names a cnd n n1 k1 h.1 hin h1
-    obtain ⟨n2, k2, h2⟩ := ihb cnd n1 h.2 hi1
-    exact ⟨n2, _, by simp only [listen]; exact bind_ok_intro h1 (bind_ok_intro h2 rfl)⟩
-  | fdecl f ps body _ =>
-    intro cnd n h _
-    simp only [topOk] at h
-    obtain ⟨ks, h1⟩ := body_listen_ok body _ ps h
-    exact ⟨_, ks, by simp only [listen]; exact bind_ok_intro h1 rfl⟩
-  | num m => intro cnd n h _; simp only [topOk, pureTop] at h; obtain ⟨ks, h1⟩ := pure_listen_ok_top h; exact ⟨n, ks, h1⟩
-  | str m => intro cnd n h _; simp only [topOk, pureTop] at h; obtain ⟨ks, h1⟩ := pure_listen_ok_top h; exact ⟨n, ks, h1⟩
-  | ident m => intro cnd n h _; simp only [topOk, pureTop] at h; obtain ⟨ks, h1⟩ := pure_listen_ok_top h; exact ⟨n, ks, h1⟩
-  | dot a k _ => intro cnd n h _; simp only [topOk, pureTop] at h; obtain ⟨ks, h1⟩ := pure_listen_ok_top h; exact ⟨n, ks, h1⟩
-  | idx a i _ _ => intro cnd n h _; simp only [topOk, pureTop] at h; obtain ⟨ks, h1⟩ := pure_listen_ok_top h; exact ⟨n, ks, h1⟩
-  | paren a _ => intro cnd n h _; simp only [topOk, pureTop] at h; obtain ⟨ks, h1⟩ := pure_listen_ok_top h; exact ⟨n, ks, h1⟩
-  | bin a c _ _ => intro cnd n h _; simp only [topOk, pureTop] at h; obtain ⟨ks, h1⟩ := pure_listen_ok_top h; exact ⟨n, ks, h1⟩
-  | cond a c d _ _ _ => intro cnd n h _; simp only [topOk, pureTop] at h; obtain ⟨ks, h1⟩ := pure_listen_ok_top h; exact ⟨n, ks, h1⟩
-  | call a c _ _ => intro cnd n h _; simp only [topOk, pureTop] at h; obtain ⟨ks, h1⟩ := pure_listen_ok_top h; exact ⟨n, ks, h1⟩
-  | fexpr ps c _ => intro cnd n h _; simp only [topOk, pureTop] at h; obtain ⟨ks, h1⟩ := pure_listen_ok_top h; exact ⟨n, ks, h1⟩
+theorem idxKeys_total (n : Names) (e i : Js) : ∃ ks, idxKeys n e i = .ok ks := by
+  unfold idxKeys
+  cases nameOf e with
+  | none => exact ⟨_, rfl⟩
+  | some x =>
+    simp only
+    split
+    · cases i <;> exact ⟨_, rfl⟩
+    · exact ⟨_, rfl⟩
+
+/-- **the analysis is total**: `CWLDependencyListener` walks every tree of the modelled syntax without raising -/
+theorem listen_total : ∀ (e : Js) (n : Names), ∃ r, listen n e = .ok r := by
+  intro e
+  induction e with
+  | num m => intro n; exact ⟨(n, []), by simp [listen]⟩
+  | str m => intro n; exact ⟨(n, []), by simp [listen]⟩
+  | ident m => intro n; exact ⟨(n, []), by simp [listen]⟩
+  | skip => intro n; exact ⟨(n, []), by simp [listen]⟩
+  | varDecl x => intro n; exact ⟨(n, []), by simp [listen]⟩
+  | dot e k ih =>
+    intro n
+    obtain ⟨⟨n1, k1⟩, h1⟩ := ih n
+    exact ⟨_, by simp only [listen]; exact bind_ok_intro h1 rfl⟩
+  | idx e i ih1 ih2 =>
+    intro n
+    obtain ⟨k0, h0⟩ := idxKeys_total n e i
+    obtain ⟨⟨n1, k1⟩, h1⟩ := ih1 n
+    obtain ⟨⟨n2, k2⟩, h2⟩ := ih2 n1
+    exact ⟨_, by simp only [listen]; exact bind_ok_intro h0 (bind_ok_intro h1 (bind_ok_intro h2 rfl))⟩
+  | paren e ih => intro n; simp only [listen]; exact ih n
+  | assign x e ih =>
+    intro n
+    obtain ⟨n0, h0⟩ := onAssign_total n x e
+    obtain ⟨r, h1⟩ := ih n0
+    exact ⟨r, by simp only [listen]; exact bind_ok_intro h0 h1⟩
+  | bin a b ih1 ih2 =>
+    intro n
+    obtain ⟨⟨n1, k1⟩, h1⟩ := ih1 n
+    obtain ⟨⟨n2, k2⟩, h2⟩ := ih2 n1
+    exact ⟨_, by simp only [listen]; exact bind_ok_intro h1 (bind_ok_intro h2 rfl)⟩
+  | cond c a b ih1 ih2 ih3 =>
+    intro n
+    obtain ⟨⟨n1, k1⟩, h1⟩ := ih1 n
+    obtain ⟨⟨n2, k2⟩, h2⟩ := ih2 n1
+    obtain ⟨⟨n3, k3⟩, h3⟩ := ih3 n2
+    exact ⟨_, by simp only [listen]; exact bind_ok_intro h1 (bind_ok_intro h2 (bind_ok_intro h3 rfl))⟩
+  | call a b ih1 ih2 =>
+    intro n
+    obtain ⟨⟨n1, k1⟩, h1⟩ := ih1 n
+    obtain ⟨⟨n2, k2⟩, h2⟩ := ih2 n1
+    exact ⟨_, by simp only [listen]; exact bind_ok_intro h1 (bind_ok_intro h2 rfl)⟩
+  | fexpr ps body ih => intro n; simp only [listen]; exact ih n
+  | seq a b ih1 ih2 =>
+    intro n
+    obtain ⟨⟨n1, k1⟩, h1⟩ := ih1 n
+    obtain ⟨⟨n2, k2⟩, h2⟩ := ih2 n1
+    exact ⟨_, by simp only [listen]; exact bind_ok_intro h1 (bind_ok_intro h2 rfl)⟩
+  | varInit x e ih => intro n; simp only [listen]; exact ih n
+  | ret e ih => intro n; simp only [listen]; exact ih n
+  | ite c t e ih1 ih2 ih3 =>
+    intro n
+    obtain ⟨⟨n1, k1⟩, h1⟩ := ih1 n
+    obtain ⟨⟨n2, k2⟩, h2⟩ := ih2 n1
+    obtain ⟨⟨n3, k3⟩, h3⟩ := ih3 n2
+    exact ⟨_, by simp only [listen]; exact bind_ok_intro h1 (bind_ok_intro h2 (bind_ok_intro h3 rfl))⟩
+  | fdecl f ps body ih =>
+    intro n
+    obtain ⟨⟨n1, k1⟩, h1⟩ := ih (shadowParams n.push ps)
+    exact ⟨_, by simp only [listen]; exact bind_ok_intro h1 rfl⟩
 
 end SFV.JsDeps
